@@ -374,7 +374,7 @@ class ElementOperation(Module):
 
     def _sensitivity(self, dy):
         du_el = einsum('...k, ...l -> lk', self.element_matrix, dy, optimize=True)
-        du = np.zeros_like(self.sig_in[0].state)
+        du = np.zeros_like(self.sig_in[0].state, dtype=np.result_type(self.sig_in[0].state.dtype, du_el.dtype))
         np.add.at(du, self.dofconn, du_el)
         return du
 
